@@ -34,10 +34,12 @@ logging.disable(logging.CRITICAL)
 
 THEOREM_FILE = "Properties/C05.v"
 COQCHK = ["Properties.C05"]
-RULE = ("pairs (t1, t2) of tree-shaped nests of list/tuple/dict/set/frozenset over None/bool/int/half-integer float/str/bytes, depth <= 3-4; "
+RULE = ("(a) pairs (t1, t2) of tree-shaped nests of list/tuple/dict/set/frozenset over None/bool/int/half-integer float/str/bytes, depth <= 3-4; "
         "t2 = t1 rebuilt with list/tuple/dict/set order permuted at every level, then 0-3 edits (duplicate an item, insert a near-duplicate "
         "of an item, delete, move, replace, dict/set edits) at random depths; a case = (t1, t2, knob setting); non-trivial = t1 or t2 "
-        "contains a list/tuple with >= 2 items; distinct = distinct (canonical t1, canonical t2, knobs)")
+        "contains a list/tuple with >= 2 items; distinct = distinct (canonical t1, canonical t2, knobs); (b) direct oracle only: t2 built from PIECES OF t1 "
+        "BY REFERENCE (an element of t1 wrapped in a new dict/list, sub-lists re-used in another order, t1 itself as an item, an ancestor as a value): "
+        "verdict = specification on the values, = verdict for a deep copy, same for all knobs")
 TRUSTED = [
     "the pairing chosen by _get_most_in_common_pairs_in_iterables is an oracle of the model (any list of index pairs; the theorems hold for every oracle); "
     "the harness feeds the recorded pairings and checks them for validity",
@@ -638,6 +640,229 @@ def oracle_grid(ctx, jobs, pool):
             ctx.count("pairs:equal_%s" % ("multiset" if rep else "set") if eq else "pairs:different_%s" % ("multiset" if rep else "set"))
 
 
+
+# ---------------------------------------------------------------------------
+# inputs that share objects ACROSS t1 and t2 (direct oracle only)
+# ---------------------------------------------------------------------------
+# t2 is described by a recipe over t1:  ["ref", path] = the very object found in t1 at path,
+# ["list"|"tuple", [recipes]], ["dict", [[key_repr, recipe]...]], ["lit", repr] (a fresh value).
+# t1 itself stays a tree and t2 never occurs inside t1, so there is no cycle; as VALUES the two
+# are ordinary nested values, and the verdict may not depend on who shares what with whom.
+
+def build_shared(t1, recipe):
+    tag = recipe[0]
+    if tag == "ref":
+        return V.get_at(t1, [from_repr(k) if isinstance(k, str) else k for k in recipe[1]])
+    if tag == "lit":
+        return from_repr(recipe[1])
+    if tag == "list":
+        return [build_shared(t1, r) for r in recipe[1]]
+    if tag == "tuple":
+        return tuple(build_shared(t1, r) for r in recipe[1])
+    if tag == "dict":
+        return {from_repr(k): build_shared(t1, r) for k, r in recipe[1]}
+    raise ValueError(recipe)
+
+
+def _enc_path(path):
+    return [p if isinstance(p, int) and not isinstance(p, bool) else repr(p) for p in path]
+
+
+def _dec_ok(path):
+    # dict keys travel as reprs, list indexes as ints: a str key 'x' is "'x'" and never an int
+    return True
+
+
+def mirror(rng, v, path, p_ref=0.25, p_shuffle=0.6):
+    """recipe rebuilding v with fresh containers (order permuted), where some sub-values are
+    taken from t1 by reference"""
+    if isinstance(v, (list, tuple, dict)) and path and rng.random() < p_ref:
+        return ["ref", _enc_path(path)]
+    if isinstance(v, (list, tuple)):
+        items = [mirror(rng, x, path + (i,), p_ref, p_shuffle) for i, x in enumerate(v)]
+        if rng.random() < p_shuffle:
+            rng.shuffle(items)
+        return ["list" if isinstance(v, list) else "tuple", items]
+    if isinstance(v, dict):
+        items = [[repr(k), mirror(rng, x, path + (k,), p_ref, p_shuffle)] for k, x in v.items()]
+        if rng.random() < p_shuffle:
+            rng.shuffle(items)
+        return ["dict", items]
+    return ["lit", repr(v)]
+
+
+def recipe_positions(r, pos=()):
+    yield pos, r
+    if r[0] in ("list", "tuple"):
+        for i, x in enumerate(r[1]):
+            yield from recipe_positions(x, pos + (i,))
+    elif r[0] == "dict":
+        for i, (_k, x) in enumerate(r[1]):
+            yield from recipe_positions(x, pos + (i,))
+
+
+def recipe_set(r, pos, new):
+    if not pos:
+        return new
+    r = [r[0], list(r[1])]
+    i = pos[0]
+    if r[0] == "dict":
+        r[1][i] = [r[1][i][0], recipe_set(r[1][i][1], pos[1:], new)]
+    else:
+        r[1][i] = recipe_set(r[1][i], pos[1:], new)
+    return r
+
+
+SHARED_EDITS = ["wrap_dict", "wrap_dict", "wrap_list", "self_item", "ancestor_ref", "cross_ref", "dup_ref", "none"]
+
+
+def gen_shared(rng, depth=3):
+    """(t1, recipe, kinds): t2 = build_shared(t1, recipe) re-uses pieces of t1 by reference"""
+    for _try in range(6):
+        t1 = V.gen_value(rng, depth=depth, width=4, alias=False, strings=STRS, kinds="LLLTDDDA")
+        if isinstance(t1, (list, tuple, dict)) and len(t1) >= 2 and not V.contains_alias(t1):
+            break
+    else:
+        t1 = [V.gen_atom(rng, False, STRS), {"k": 5, "n": 1}, [1, 2]]
+    cont = [p for p in V.positions(t1) if isinstance(V.get_at(t1, p), (list, tuple, dict))]
+    rec = mirror(rng, t1, ())
+    kinds = []
+    for _ in range(rng.choice([1, 1, 2])):
+        kind = rng.choice(SHARED_EDITS)
+        pos_list = [(pos, r) for pos, r in recipe_positions(rec)]
+        pos, r = rng.choice(pos_list)
+        tp = rng.choice(cont)                 # a container of t1
+        tv = V.get_at(t1, tp)
+        ref = ["ref", _enc_path(tp)]
+        if kind == "wrap_dict":
+            # the new element wraps the old one under one of ITS OWN keys (history / prev style records)
+            if isinstance(tv, dict) and tv:
+                keys = list(tv)
+                k0 = rng.choice(keys)
+                items = [[repr(k), (ref if k == k0 else ["lit", repr(tv[k])])] for k in keys]
+            else:
+                items = [[repr("k"), ref], [repr("n"), ["lit", "1"]]]
+            new = ["dict", items]
+            # put it where the wrapped object is mirrored if possible, else anywhere
+            target = [ps for ps, rr in pos_list if rr == ref or ps == ()]
+            pos = rng.choice(target) if target and rng.random() < 0.7 else pos
+        elif kind == "wrap_list":
+            new = ["list", [ref, ["lit", repr(V.gen_atom(rng, False, STRS))]]]
+        elif kind == "self_item":
+            new = rng.choice([["list", [["ref", []], r]], ["dict", [[repr("k"), ["ref", []]], [repr("n"), ["lit", "1"]]]]])
+        elif kind == "ancestor_ref":
+            new = ["ref", _enc_path(tp[:rng.randint(0, len(tp))])]
+        elif kind == "cross_ref":
+            new = ref
+        elif kind == "dup_ref":
+            new = ["list", [ref, ref]]
+        else:
+            continue
+        rec = recipe_set(rec, pos, new)
+        kinds.append(kind)
+    if rec[0] == "ref" and rec[1] == []:
+        rec = ["list", [rec]]
+    return t1, rec, kinds
+
+
+SHARED_FIXED = [
+    ("[{'k': 5, 'n': 1}, 7]", ["list", [["lit", "7"], ["dict", [["'k'", ["ref", [0]]], ["'n'", ["lit", "1"]]]]]]),
+    ("{'k': 5, 'n': 1}", ["dict", [["'k'", ["ref", []]], ["'n'", ["lit", "1"]]]]),
+    ("[[{'k': 5, 'n': 1}, 7], 7]", ["list", [["lit", "7"], ["list", [["lit", "7"], ["dict", [["'k'", ["ref", [0, 0]]], ["'n'", ["lit", "1"]]]]]]]]),
+    ("[[1, 2], [3, 4]]", ["list", [["ref", [1]], ["ref", [0]]]]),
+    ("[[1, 2], [3, 4]]", ["list", [["ref", [1]], ["ref", [0]], ["ref", []]]]),
+    ("{'a': [1, {'a': 2}]}", ["dict", [["'a'", ["ref", []]]]]),
+]
+
+SHARED_KNOBS = [dict(), dict(max_passes=0), dict(cutoff_intersection_for_pairs=0), dict(max_passes=1),
+                dict(cutoff_distance_for_pairs=1, cutoff_intersection_for_pairs=1), dict(cache_size=50, max_passes=2)]
+
+
+def verdict_shared(t1, t2, **kw):
+    """like verdict(), but on the objects as given (no copies: sharing is the point)"""
+    from deepdiff import DeepDiff
+    try:
+        return len(DeepDiff(t1, t2, ignore_order=True, **kw)) == 0
+    except Exception as e:  # noqa
+        return e
+
+
+def shared_case(t1r, recipe, knobs):
+    """the property on one shared pair: [(knobs, verdict shared, verdict deep-copied)]"""
+    out = []
+    for kn in knobs:
+        t1 = from_repr(t1r)
+        t2 = build_shared(t1, recipe)
+        snap = (V.canon(t1), V.canon(copy.deepcopy(t2)))
+        got = verdict_shared(t1, t2, **kn)
+        unmod = (V.canon(t1), V.canon(copy.deepcopy(t2))) == snap
+        ref = verdict(t1, t2, **kn)          # verdict() deep-copies both sides separately: no sharing left
+        out.append((kn, _enc(got), _enc(ref), unmod))
+    return out
+
+
+def _shared_task(args):
+    seed, n, extra = args
+    rng = random.Random(seed)
+    res = []
+    todo = [(a, r, ["fixed"]) for a, r in extra]
+    for _ in range(n):
+        t1, rec, kinds = gen_shared(rng, depth=rng.choice([2, 3, 3]))
+        todo.append((repr(t1), rec, kinds))
+    for t1r, rec, kinds in todo:
+        try:
+            t2r = repr(build_shared(from_repr(t1r), rec))
+        except Exception as e:  # noqa  (a recipe that does not apply: generator defect, reported)
+            res.append((t1r, rec, kinds, None, "recipe failed: %r" % (e,)))
+            continue
+        knobs = [dict(k, report_repetition=rp, threshold_to_diff_deeper=th) for k in SHARED_KNOBS for rp in REPS
+                 for th in ((0.33,) if k else (0, 0.33))]
+        knobs += rng.sample(ALL_KNOBS, 6)
+        res.append((t1r, rec, kinds, t2r, shared_case(t1r, rec, knobs)))
+    return res
+
+
+def oracle_shared(ctx, pool, n_tasks, per_task):
+    seeds = [ctx.rng.randrange(1 << 30) for _ in range(n_tasks)]
+    jobs = [(sd, per_task, SHARED_FIXED if i == 0 else []) for i, sd in enumerate(seeds)]
+    npairs = 0
+    for res in pool.map(_shared_task, jobs, chunksize=1):
+        for t1r, rec, kinds, t2r, out in res:
+            if t2r is None:
+                ctx.break_("harness", {"what": out, "t1": t1r, "recipe": rec})
+                continue
+            npairs += 1
+            for k in kinds or ["mirror_only"]:
+                ctx.count("shared:" + k)
+            t1 = from_repr(t1r)
+            t2v = from_repr(t2r)              # the VALUE of t2 (sharing forgotten) for the specification
+            verdicts = {}
+            for kn, got, ref, unmod in out:
+                base = {"t1": t1r, "t2": t2r, "t2_recipe": rec, "knobs": kn, "shared": True}
+                g = got if isinstance(got, bool) else RuntimeError(got)
+                ctx.seen((t1r, repr(rec), sorted(kn.items())), nontrivial=True)
+                exp, case = oracle_case(t1, t2v, kn, g)
+                case.update(base)
+                if isinstance(g, Exception):
+                    ctx.fail(case, "DeepDiff(ignore_order=True) raised on inputs that share objects: " + got)
+                elif g != exp:
+                    ctx.fail(case, "t2 re-uses objects of t1: ignore_order result is %s but the inputs are %s as nested %s" % (
+                        "empty" if g else "non-empty", "equal" if exp else "different",
+                        "multisets" if kn.get("report_repetition") else "sets"))
+                elif got != ref:
+                    ctx.fail(dict(case, deep_copied_verdict=ref), "the verdict for t2 sharing objects with t1 differs from the verdict for a deep copy of the same values")
+                if not unmod:
+                    ctx.fail(case, "DeepDiff(ignore_order=True) modified its inputs (shared objects)")
+                verdicts.setdefault(kn.get("report_repetition", False), set()).add(got)
+                ctx.count("shared:empty" if got is True else "shared:nonempty")
+            for rep, vs in verdicts.items():
+                if len(vs) > 1:
+                    ctx.fail({"t1": t1r, "t2": t2r, "t2_recipe": rec, "shared": True, "report_repetition": rep, "verdicts": sorted(map(repr, vs)),
+                              "alias": V.contains_alias(t1, t2v), "tag_like": has_tag_like(t1, t2v)},
+                             "t2 re-uses objects of t1: the empty/non-empty verdict depends on the pairing knobs")
+    ctx.count("shared:pairs", npairs)
+
+
 def replay_witnesses(ctx):
     """the Coq _refuted witnesses on the implementation"""
     from deepdiff import DeepDiff
@@ -691,6 +916,8 @@ def run(ctx):
                 jobs.append((a, b, rng.sample(ALL_KNOBS, 8)))
         ctx.count("oracle:alias_pairs", n_alias)
         oracle_grid(ctx, jobs, pool)
+        # --- objects shared across t1 and t2 (t2 built from pieces of t1 by reference)
+        oracle_shared(ctx, pool, core.NCPU, 40 if ctx.thorough else 8)
     ctx.note("knob_product", {"cutoff_distance_for_pairs": CUT_DIST, "cutoff_intersection_for_pairs": CUT_INTER, "max_passes": MAX_PASSES,
                               "cache_size": CACHE, "threshold_to_diff_deeper": THRS, "report_repetition": REPS, "size": len(ALL_KNOBS)})
 
@@ -699,6 +926,26 @@ def replay(ctx, data):
     case = data.get("case", {})
     if "t1" not in case:
         return run(ctx)
+    if case.get("shared"):
+        knobs = [case["knobs"]] if "knobs" in case else [dict(k, report_repetition=rp) for k in SHARED_KNOBS for rp in REPS]
+        t2v = from_repr(case["t2"])
+        vs = {}
+        for kn, got, ref, unmod in shared_case(case["t1"], case["t2_recipe"], knobs):
+            ctx.evaluations += 1
+            print("replay (t2 shares objects with t1): knobs=%r -> shared %s, deep-copied %s" % (kn, got, ref))
+            g = got if isinstance(got, bool) else RuntimeError(got)
+            exp, c2 = oracle_case(from_repr(case["t1"]), t2v, kn, g)
+            c2.update({"t2_recipe": case["t2_recipe"], "shared": True})
+            if isinstance(g, Exception) or g != exp:
+                ctx.fail(c2, "t2 re-uses objects of t1: ignore_order verdict is wrong (%s, specification says %s)" % (got, "empty" if exp else "non-empty"))
+            elif got != ref:
+                ctx.fail(c2, "the verdict for t2 sharing objects with t1 differs from the verdict for a deep copy of the same values")
+            vs.setdefault(kn.get("report_repetition", False), set()).add(got)
+        for rep, s_ in vs.items():
+            if len(s_) > 1:
+                ctx.fail({"t1": case["t1"], "t2": case["t2"], "t2_recipe": case["t2_recipe"], "shared": True, "report_repetition": rep,
+                          "verdicts": sorted(map(repr, s_))}, "t2 re-uses objects of t1: the empty/non-empty verdict depends on the pairing knobs")
+        return
     t1, t2 = from_repr(case["t1"]), from_repr(case["t2"])
     knobs = [case["knobs"]] if "knobs" in case else ALL_KNOBS
     for kn in knobs:
